@@ -27,17 +27,17 @@ pub trait ExFromStr: Sized {
     type Err;
 }
 
-pub uninterp spec fn parse_ensures<F: std::str::FromStr>(s: Seq<char>, r: Result<F, F::Err>) -> bool;
-pub assume_specification<F: std::str::FromStr>[ str::parse::<F> ](s: &str) -> (r: Result<F, F::Err>)
+pub uninterp spec fn parse_ensures<F: std::str::FromStr>(s: Seq<char>, r: std::result::Result<F, F::Err>) -> bool;
+pub assume_specification<F: std::str::FromStr>[ str::parse::<F> ](s: &str) -> (r: std::result::Result<F, F::Err>)
     ensures parse_ensures::<F>(s@, r);
 
-pub broadcast axiom fn axiom_parse_i64(s: Seq<char>, r: Result<i64, std::num::ParseIntError>)
+pub broadcast axiom fn axiom_parse_i64(s: Seq<char>, r: std::result::Result<i64, std::num::ParseIntError>)
     requires #[trigger] parse_ensures::<i64>(s, r),
     ensures (r is Ok) == (parse_i64(s) is Some), r is Ok ==> r->Ok_0 == parse_i64(s)->Some_0;
-pub broadcast axiom fn axiom_parse_usize(s: Seq<char>, r: Result<usize, std::num::ParseIntError>)
+pub broadcast axiom fn axiom_parse_usize(s: Seq<char>, r: std::result::Result<usize, std::num::ParseIntError>)
     requires #[trigger] parse_ensures::<usize>(s, r),
     ensures (r is Ok) == (parse_usize(s) is Some), r is Ok ==> r->Ok_0 == parse_usize(s)->Some_0;
-pub broadcast axiom fn axiom_parse_f64(s: Seq<char>, r: Result<f64, std::num::ParseFloatError>)
+pub broadcast axiom fn axiom_parse_f64(s: Seq<char>, r: std::result::Result<f64, std::num::ParseFloatError>)
     requires #[trigger] parse_ensures::<f64>(s, r),
     ensures (r is Ok) == (parse_f64(s) is Some), r is Ok ==> r->Ok_0 == parse_f64(s)->Some_0;
 
@@ -67,7 +67,16 @@ pub broadcast axiom fn axiom_f64_gt(x: f64, y: f64, o: bool)
 pub broadcast axiom fn axiom_f64_ge(x: f64, y: f64, o: bool)
     requires #[trigger] ge_ensures::<f64>(x, y, o), ensures o == f64_ge(x, y);
 
+// the empty string is not a number
+pub broadcast axiom fn axiom_parse_empty_i64(s: Seq<char>)
+    requires s.len() == 0, ensures #[trigger] parse_i64(s) is None;
+pub broadcast axiom fn axiom_parse_empty_f64(s: Seq<char>)
+    requires s.len() == 0, ensures #[trigger] parse_f64(s) is None;
+pub broadcast axiom fn axiom_parse_empty_usize(s: Seq<char>)
+    requires s.len() == 0, ensures #[trigger] parse_usize(s) is None;
+
 pub broadcast group group_std_axioms {
+    axiom_parse_empty_i64, axiom_parse_empty_f64, axiom_parse_empty_usize,
     axiom_parse_i64, axiom_parse_usize, axiom_parse_f64,
     axiom_f64_eq, axiom_f64_lt, axiom_f64_le, axiom_f64_gt, axiom_f64_ge,
 }
@@ -166,3 +175,22 @@ pub fn cast_i64_f64(x: i64) -> (r: f64) ensures r == i64_as_f64(x) { x as f64 }
 pub fn cast_u64_f64(x: u64) -> (r: f64) ensures r == u64_as_f64(x) { x as f64 }
 #[verifier::external_body]
 pub fn cast_f64_i64(x: f64) -> (r: i64) ensures r == f64_as_i64(x) { x as i64 }
+
+// chars
+pub uninterp spec fn char_is_numeric(c: char) -> bool;
+pub uninterp spec fn char_is_alphanumeric(c: char) -> bool;
+pub assume_specification[ char::is_numeric ](c: char) -> (r: bool) ensures r == char_is_numeric(c);
+pub assume_specification[ char::is_alphanumeric ](c: char) -> (r: bool) ensures r == char_is_alphanumeric(c);
+// Unicode facts used: ASCII digits are numeric, ASCII letters and digits are alphanumeric
+pub broadcast axiom fn axiom_ascii_numeric(c: char)
+    ensures ('0' <= c <= '9') ==> #[trigger] char_is_numeric(c);
+pub broadcast axiom fn axiom_ascii_alphanumeric(c: char)
+    ensures ('0' <= c <= '9' || 'a' <= c <= 'z' || 'A' <= c <= 'Z') ==> #[trigger] char_is_alphanumeric(c);
+pub broadcast group axiom_ascii_char_classes { axiom_ascii_numeric, axiom_ascii_alphanumeric }
+
+#[verifier::external_body]
+pub fn chars_to_string(v: Vec<char>) -> (r: String)
+    ensures r@ == v@,
+{
+    v.into_iter().collect()
+}
